@@ -247,19 +247,18 @@ def parseObjLoop : Nat → Token → List (Bytes × Expr) → PS → Expr × PS
 
 end
 
-/-- the parser's recursive functions at one fuel level (what a function body may call) -/
-structure PCallees where
-  expr : Nat → PS → Expr × PS
-  exprList : TT → PS → List Expr × PS
-  stmt : PS → Stmt × PS
-  body : PS → List Stmt × PS
-  block : List Stmt → PS → List Stmt × PS
-  ifTail : Token → Expr → List Stmt → List (Expr × List Stmt) → PS → Stmt × PS
-  slots : List SlotUse → PS → List SlotUse × PS
-  skipHtml : PS → PS
+/-! The bodies of the statement parser's functions, given the recursive functions they call
+    (`pe` = `parseExpression`, `pl` = `parseExpressionList`, `pst` = `parseStatement`,
+    `pbody` = `parseBody`, `pblock` = `parseBlockStmt`, `ptail` = the `@elseif` loop,
+    `pslots` = `parseSlots`, `pskip` = the text-skipping loop). -/
+section bodies
+variable (pe : Nat → PS → Expr × PS) (pl : TT → PS → List Expr × PS) (pst : PS → Stmt × PS)
+  (pbody : PS → List Stmt × PS) (pblock : List Stmt → PS → List Stmt × PS)
+  (ptail : Token → Expr → List Stmt → List (Expr × List Stmt) → PS → Stmt × PS)
+  (pslots : List SlotUse → PS → List SlotUse × PS) (pskip : PS → PS)
 
 /-- `parseEmbeddedCode` -/
-def parseEmbeddedCode (k : PCallees) (p : PS) : Stmt × PS :=
+def parseEmbeddedCode (p : PS) : Stmt × PS :=
   let p1 := p.next
   if p1.curIs .RBRACES then (.bad, p1.err p1.cur.errorLine "ErrEmptyBraces" [])
   else if p1.cur.ty == .IDENT && p1.peekIs .ASSIGN then
@@ -269,84 +268,90 @@ def parseEmbeddedCode (k : PCallees) (p : PS) : Stmt × PS :=
     let p3 := p2.next
     if p3.curIs .RBRACES then (.bad, p3.err p3.cur.errorLine "ErrExpectedExpression" [])
     else
-      let (v, p4) := k.expr LOWEST p3
+      let (v, p4) := pe LOWEST p3
       (.assign t t.lit v, p4)
   else
     -- parseExpressionStmt
-    let (e, p2) := k.expr LOWEST p1
+    let (e, p2) := pe LOWEST p1
     let t := p2.cur
     (.expr t e, if p2.peekIs .RBRACES then p2.next else p2)
 
 /-- `@xxx(` + expression : used by `@breakIf` / `@continueIf` -/
-def parseCondDirective (k : PCallees) (p : PS) (mk : Token → Expr → Stmt) : Stmt × PS :=
+def parseCondDirective (p : PS) (mk : Token → Expr → Stmt) : Stmt × PS :=
   let t := p.cur
   let (ok, p1) := p.expectPeek .LPAREN
   if !ok then (.bad, p1)
   else
-    let (c, p2) := k.expr LOWEST p1.next
+    let (c, p2) := pe LOWEST p1.next
     (mk t c, p2)
 
 /-- `parseIfStmt` -/
-def parseIfStmt (k : PCallees) (p : PS) : Stmt × PS :=
+def parseIfStmt (p : PS) : Stmt × PS :=
   let t := p.cur
   let (ok, p1) := p.expectPeek .LPAREN
   if !ok then (.bad, p1)
   else
-    let (c, p2) := k.expr LOWEST p1.next
+    let (c, p2) := pe LOWEST p1.next
     let (ok, p3) := p2.expectPeek .RPAREN
     if !ok then (.bad, p3)
     else
-      let (cons, p4) := k.body p3
-      k.ifTail t c cons [] p4
+      let (cons, p4) := pbody p3
+      ptail t c cons [] p4
+
+/-- the optional `@else` block of a loop -/
+def loopElse (p : PS) : Option (List Stmt) × PS :=
+  if p.peekIs .ELSE then
+    let (a, q) := pbody p.next
+    (some a, q)
+  else (none, p)
+
+/-- an optional `parseEmbeddedCode` clause of the `@for` header (absent when `stop` comes next);
+    a nil statement is kept as "absent" -/
+def forClause (stop : TT) (p : PS) : Option Stmt × PS :=
+  if !p.peekIs stop then
+    let (s, q) := parseEmbeddedCode pe p
+    (if s.isBad then none else some s, q)
+  else (none, p)
+
+/-- the optional condition of the `@for` header -/
+def forCond (p : PS) : Option Expr × PS :=
+  if !p.peekIs .SEMI then
+    let (e, q) := pe LOWEST p.next
+    (if e.isBad then none else some e, q)
+  else (none, p)
 
 /-- the part shared by `parseForStmt` and `parseEachStmt` after the header:
     block, optional `@else` block, `@end` -/
-def parseLoopBody (k : PCallees) (p : PS) : Option (List Stmt × Option (List Stmt)) × PS :=
-  let (body, p1) := k.body p
-  let (alt, p2) : Option (List Stmt) × PS :=
-    if p1.peekIs .ELSE then
-      let (a, q) := k.body p1.next
-      (some a, q)
-    else (none, p1)
+def parseLoopBody (p : PS) : Option (List Stmt × Option (List Stmt)) × PS :=
+  let (body, p1) := pbody p
+  let (alt, p2) := loopElse pbody p1
   let (ok, p3) := p2.expectPeek .END
   if ok then (some (body, alt), p3) else (none, p3)
 
 /-- `parseForStmt` -/
-def parseForStmt (k : PCallees) (p : PS) : Stmt × PS :=
+def parseForStmt (p : PS) : Stmt × PS :=
   let t := p.cur
   let (ok, p1) := p.expectPeek .LPAREN
   if !ok then (.bad, p1)
   else
-    let (init, p2) : Option Stmt × PS :=
-      if !p1.peekIs .SEMI then
-        let (s, q) := parseEmbeddedCode k p1
-        (if s.isBad then none else some s, q)
-      else (none, p1)
+    let (init, p2) := forClause pe .SEMI p1
     let (ok, p3) := p2.expectPeek .SEMI
     if !ok then (.bad, p3)
     else
-      let (cond, p4) : Option Expr × PS :=
-        if !p3.peekIs .SEMI then
-          let (e, q) := k.expr LOWEST p3.next
-          (if e.isBad then none else some e, q)
-        else (none, p3)
+      let (cond, p4) := forCond pe p3
       let (ok, p5) := p4.expectPeek .SEMI
       if !ok then (.bad, p5)
       else
-        let (post, p6) : Option Stmt × PS :=
-          if !p5.peekIs .RPAREN then
-            let (s, q) := parseEmbeddedCode k p5
-            (if s.isBad then none else some s, q)
-          else (none, p5)
+        let (post, p6) := forClause pe .RPAREN p5
         let (ok, p7) := p6.expectPeek .RPAREN
         if !ok then (.bad, p7)
         else
-          match parseLoopBody k p7 with
+          match parseLoopBody pbody p7 with
           | (some (body, alt), p8) => (.forS t init cond post body alt, p8)
           | (none, p8) => (.bad, p8)
 
 /-- `parseEachStmt` -/
-def parseEachStmt (k : PCallees) (p : PS) : Stmt × PS :=
+def parseEachStmt (p : PS) : Stmt × PS :=
   let t := p.cur
   let (ok, p1) := p.expectPeek .LPAREN
   if !ok then (.bad, p1)
@@ -356,16 +361,16 @@ def parseEachStmt (k : PCallees) (p : PS) : Stmt × PS :=
     let (ok, p3) := p2.expectPeek .IN
     if !ok then (.bad, p3)
     else
-      let (arr, p4) := k.expr LOWEST p3.next
+      let (arr, p4) := pe LOWEST p3.next
       let (ok, p5) := p4.expectPeek .RPAREN
       if !ok then (.bad, p5)
       else
-        match parseLoopBody k p5 with
+        match parseLoopBody pbody p5 with
         | (some (body, alt), p6) => (.eachS t var arr body alt, p6)
         | (none, p6) => (.bad, p6)
 
 /-- `parseInsertStmt` -/
-def parseInsertStmt (k : PCallees) (p : PS) : Stmt × PS :=
+def parseInsertStmt (p : PS) : Stmt × PS :=
   let t := p.cur
   let (ok, p1) := p.expectPeek .LPAREN
   if !ok then (.bad, p1)
@@ -375,7 +380,7 @@ def parseInsertStmt (k : PCallees) (p : PS) : Stmt × PS :=
     if (mapGet p2.inserts name).isSome then
       (.bad, p2.err t.errorLine "ErrDuplicateInserts" [name])
     else if p2.peekIs .COMMA then
-      let (arg, p3) := k.expr LOWEST p2.next.next
+      let (arg, p3) := pe LOWEST p2.next.next
       let argO := if arg.isBad then none else some arg
       (.insert t name argO none,
         { p3 with inserts := mapSet p3.inserts name { tok := t, name, arg := argO, block := none } })
@@ -383,49 +388,55 @@ def parseInsertStmt (k : PCallees) (p : PS) : Stmt × PS :=
       let (ok, p3) := p2.expectPeek .RPAREN
       if !ok then (.bad, p3)
       else
-        let (blk, p4) := k.body p3
+        let (blk, p4) := pbody p3
         (.insert t name none (some blk),
           { p4 with inserts := mapSet p4.inserts name { tok := t, name, arg := none, block := some blk } })
 
+/-- the optional object-literal argument of `@component`; outer `none` = not an object literal -/
+def componentArg (p : PS) : Option (Option (List (Bytes × Expr))) × PS :=
+  if p.peekIs .COMMA then
+    let (e, q) := pe LOWEST p.next.next
+    match e with
+    | .obj _ pairs => (some (some pairs), q)
+    | _ => (none, q.err q.cur.errorLine "ErrExpectedObjectLiteral" [q.cur.lit])
+  else (some none, p)
+
+/-- the `@slot` blocks that follow a `@component(...)` header (a whitespace-only text token
+    before the first one is skipped) -/
+def componentSlots (p : PS) : List SlotUse × PS :=
+  if p.peekIs .SLOT then pslots [] p.next
+  else if p.peekIs .HTML && isWhitespaceLit p.peek.lit then
+    if p.next.peekIs .SLOT then pslots [] p.next.next else ([], p)
+  else ([], p)
+
 /-- `parseComponentStmt` -/
-def parseComponentStmt (k : PCallees) (p : PS) : Stmt × PS :=
+def parseComponentStmt (p : PS) : Stmt × PS :=
   let t := p.cur
   let (ok, p1) := p.expectPeek .LPAREN
   if !ok then (.bad, p1)
   else
     let (name, p2) := aliasPath p1.next "components"
-    let (argR, p3) : Option (Option (List (Bytes × Expr))) × PS :=
-      if p2.peekIs .COMMA then
-        let (e, q) := k.expr LOWEST p2.next.next
-        match e with
-        | .obj _ pairs => (some (some pairs), q)
-        | _ => (none, q.err q.cur.errorLine "ErrExpectedObjectLiteral" [q.cur.lit])
-      else (some none, p2)
+    let (argR, p3) := componentArg pe p2
     match argR with
     | none => (.bad, p3)
     | some arg =>
       let (ok, p4) := p3.expectPeek .RPAREN
       if !ok then (.bad, p4)
       else
-        let (slots, p5) : List SlotUse × PS :=
-          if p4.peekIs .SLOT then k.slots [] p4.next
-          else if p4.peekIs .HTML && isWhitespaceLit p4.peek.lit then
-            let q := p4.next
-            if q.peekIs .SLOT then k.slots [] q.next else ([], p4)
-          else ([], p4)
+        let (slots, p5) := componentSlots pslots p4
         let cid := p5.nextId
         (.component t name arg cid,
           { p5 with components := p5.components ++ [{ tok := t, name, cid, slots }], nextId := cid + 1 })
 
 /-- `parseStatement` -/
-def statementBody (k : PCallees) (p : PS) : Stmt × PS :=
+def statementBody (p : PS) : Stmt × PS :=
   let t := p.cur
   match t.ty with
   | .HTML => (.html t, p)
-  | .LBRACES | .SEMI => parseEmbeddedCode k p
-  | .IF => parseIfStmt k p
-  | .FOR => parseForStmt k p
-  | .EACH => parseEachStmt k p
+  | .LBRACES | .SEMI => parseEmbeddedCode pe p
+  | .IF => parseIfStmt pe pbody ptail p
+  | .FOR => parseForStmt pe pbody p
+  | .EACH => parseEachStmt pe pbody p
   | .USE =>
     let (ok, p1) := p.expectPeek .LPAREN
     if !ok then (.bad, p1)
@@ -441,10 +452,10 @@ def statementBody (k : PCallees) (p : PS) : Stmt × PS :=
       let name := p2.cur.lit
       let rid := p2.nextId
       (.reserve t name rid, { p2 with reserves := mapSet p2.reserves name rid, nextId := rid + 1 })
-  | .INSERT => parseInsertStmt k p
-  | .BREAK_IF => parseCondDirective k p .breakIf
-  | .CONTINUE_IF => parseCondDirective k p .continueIf
-  | .COMPONENT => parseComponentStmt k p
+  | .INSERT => parseInsertStmt pe pbody p
+  | .BREAK_IF => parseCondDirective pe p .breakIf
+  | .CONTINUE_IF => parseCondDirective pe p .continueIf
+  | .COMPONENT => parseComponentStmt pe pslots p
   | .SLOT =>
     -- parseSlotStmt (a slot placeholder inside a component file)
     if !p.peekIs .LPAREN then (.slot t [] none, p)
@@ -457,46 +468,46 @@ def statementBody (k : PCallees) (p : PS) : Stmt × PS :=
     let (ok, p1) := p.expectPeek .LPAREN
     if !ok then (.bad, p1)
     else
-      let (args, p2) := k.exprList .RPAREN p1
+      let (args, p2) := pl .RPAREN p1
       (.dump t args, p2)
   | .BREAK => (.brk t, p)
   | .CONTINUE => (.cont t, p)
   | _ => (.bad, p)
 
 /-- `parseBody`: the block that follows the current token (empty when a block end comes next) -/
-def bodyBody (k : PCallees) (p : PS) : List Stmt × PS :=
+def bodyBody (p : PS) : List Stmt × PS :=
   if p.peekIs .ELSE || p.peekIs .ELSE_IF || p.peekIs .END then ([], p)
-  else k.block [] p.next
+  else pblock [] p.next
 
 /-- `parseBlockStmt`; the accumulated statements are `acc` -/
-def blockStmtBody (k : PCallees) (acc : List Stmt) (p : PS) : List Stmt × PS :=
+def blockStmtBody (acc : List Stmt) (p : PS) : List Stmt × PS :=
   if p.curIs .END then (acc, p)
   else if p.curIs .EOF then
     (acc, p.err p.cur.errorLine "ErrWrongNextToken" [b (tokenString .END), b (tokenString .EOF)])
   else if p.curIs .ILLEGAL then
     (acc, p.err p.cur.errorLine "ErrIllegalToken" [p.cur.lit])
   else
-    let (s, p1) := k.stmt p
+    let (s, p1) := pst p
     let acc' := if s.isBad then acc else acc ++ [s]
     if p1.peekIs .ELSE || p1.peekIs .ELSE_IF || p1.peekIs .END then (acc', p1)
-    else k.block acc' p1.next
+    else pblock acc' p1.next
 
 /-- the `@elseif` loop, `@else` and `@end` of `parseIfStmt` -/
-def ifTailBody (k : PCallees) (t : Token) (c : Expr) (cons : List Stmt) (alts : List (Expr × List Stmt)) (p : PS) :
+def ifTailBody (t : Token) (c : Expr) (cons : List Stmt) (alts : List (Expr × List Stmt)) (p : PS) :
     Stmt × PS :=
   if p.peekIs .ELSE_IF then
     -- parseElseIfStmt
     let (_, p1) := p.expectPeek .ELSE_IF
     let p2 := p1.next.next
-    let (ec, p3) := k.expr LOWEST p2
+    let (ec, p3) := pe LOWEST p2
     let (ok, p4) := p3.expectPeek .RPAREN
     if !ok then (.bad, p4)
     else
-      let (body, p5) := k.body p4
-      k.ifTail t c cons (alts ++ [(ec, body)]) p5
+      let (body, p5) := pbody p4
+      ptail t c cons (alts ++ [(ec, body)]) p5
   else if p.peekIs .ELSE then
     -- parseAlternativeBlock
-    let (alt, p1) := k.body p.next
+    let (alt, p1) := pbody p.next
     if p1.peekIs .ELSE_IF then
       (.bad, p1.err p1.peek.errorLine "ErrElseifCannotFollowElse" [])
     else
@@ -506,65 +517,58 @@ def ifTailBody (k : PCallees) (t : Token) (c : Expr) (cons : List Stmt) (alts : 
     let (ok, p1) := p.expectPeek .END
     if ok then (.ifS t c cons alts none, p1) else (.bad, p1)
 
+/-- the optional `("name")` of a `@slot` use; `none` = the closing parenthesis is missing -/
+def slotHeader (p : PS) : Option Bytes × PS :=
+  if p.peekIs .LPAREN then
+    let (ok, q1) := p.next.next.expectPeek .RPAREN
+    if ok then (some p.next.next.cur.lit, q1) else (none, q1)
+  else (some [], p)
+
 /-- `parseSlots` -/
-def slotsBody (k : PCallees) (acc : List SlotUse) (p : PS) : List SlotUse × PS :=
+def slotsBody (acc : List SlotUse) (p : PS) : List SlotUse × PS :=
   if !p.curIs .SLOT then (acc, p)
   else
     let t := p.cur
-    let (hdr, p1) : Option Bytes × PS :=
-      if p.peekIs .LPAREN then
-        let q := p.next.next
-        let name := q.cur.lit
-        let (ok, q1) := q.expectPeek .RPAREN
-        if ok then (some name, q1) else (none, q1)
-      else (some [], p)
+    let (hdr, p1) := slotHeader p
     match hdr with
     | none => ([], p1)
     | some name =>
-      let (body, p2) := k.body p1
+      let (body, p2) := pbody p1
       let p3 := p2.next.next
-      k.slots (acc ++ [{ tok := t, name, body }]) (k.skipHtml p3)
+      pslots (acc ++ [{ tok := t, name, body }]) (pskip p3)
 
 /-- `for p.curTokenIs(token.HTML) { p.nextToken() }` -/
-def skipHtmlBody (k : PCallees) (p : PS) : PS :=
-  if p.curIs .HTML then k.skipHtml p.next else p
+def skipHtmlBody (p : PS) : PS :=
+  if p.curIs .HTML then pskip p.next else p
+
+end bodies
 
 mutual
 def parseStatement : Nat → PS → Stmt × PS
   | 0, p => (.bad, p.outOfFuel)
   | fuel + 1, p =>
-    statementBody ⟨parseExpression fuel, parseExprList fuel, parseStatement fuel, parseBody fuel, parseBlockStmt fuel,
-      parseIfTail fuel, parseSlots fuel, skipHtml fuel⟩ p
+    statementBody (parseExpression fuel) (parseExprList fuel) (parseBody fuel) (parseIfTail fuel) (parseSlots fuel) p
 def parseBody : Nat → PS → List Stmt × PS
   | 0, p => ([], p.outOfFuel)
   | fuel + 1, p =>
-    bodyBody ⟨parseExpression fuel, parseExprList fuel, parseStatement fuel, parseBody fuel, parseBlockStmt fuel,
-      parseIfTail fuel, parseSlots fuel, skipHtml fuel⟩ p
+    bodyBody (parseBlockStmt fuel) p
 def parseBlockStmt : Nat → List Stmt → PS → List Stmt × PS
   | 0, acc, p => (acc, p.outOfFuel)
   | fuel + 1, acc, p =>
-    blockStmtBody ⟨parseExpression fuel, parseExprList fuel, parseStatement fuel, parseBody fuel, parseBlockStmt fuel,
-      parseIfTail fuel, parseSlots fuel, skipHtml fuel⟩ acc p
+    blockStmtBody (parseStatement fuel) (parseBlockStmt fuel) acc p
 def parseIfTail : Nat → Token → Expr → List Stmt → List (Expr × List Stmt) → PS → Stmt × PS
   | 0, _, _, _, _, p => (.bad, p.outOfFuel)
   | fuel + 1, t, c, cons, alts, p =>
-    ifTailBody ⟨parseExpression fuel, parseExprList fuel, parseStatement fuel, parseBody fuel, parseBlockStmt fuel,
-      parseIfTail fuel, parseSlots fuel, skipHtml fuel⟩ t c cons alts p
+    ifTailBody (parseExpression fuel) (parseBody fuel) (parseIfTail fuel) t c cons alts p
 def parseSlots : Nat → List SlotUse → PS → List SlotUse × PS
   | 0, acc, p => (acc, p.outOfFuel)
   | fuel + 1, acc, p =>
-    slotsBody ⟨parseExpression fuel, parseExprList fuel, parseStatement fuel, parseBody fuel, parseBlockStmt fuel,
-      parseIfTail fuel, parseSlots fuel, skipHtml fuel⟩ acc p
+    slotsBody (parseBody fuel) (parseSlots fuel) (skipHtml fuel) acc p
 def skipHtml : Nat → PS → PS
   | 0, p => p.outOfFuel
   | fuel + 1, p =>
-    skipHtmlBody ⟨parseExpression fuel, parseExprList fuel, parseStatement fuel, parseBody fuel, parseBlockStmt fuel,
-      parseIfTail fuel, parseSlots fuel, skipHtml fuel⟩ p
+    skipHtmlBody (skipHtml fuel) p
 end
-
-/-- the parser's functions at fuel `f` -/
-def pcalleesAt (f : Nat) : PCallees :=
-  ⟨parseExpression f, parseExprList f, parseStatement f, parseBody f, parseBlockStmt f, parseIfTail f, parseSlots f, skipHtml f⟩
 
 /-- the loop of `ParseProgram`; `none` = Go returned nil after an ILLEGAL token -/
 def parseProgramLoop : Nat → List Stmt → PS → Option (List Stmt) × PS
@@ -587,6 +591,26 @@ inductive ParseOut where
 /-- fuel the driver uses: generous multiple of the number of tokens -/
 def parseFuel (toks : List Token) : Nat := 4 * toks.length + 16
 
+/-- `parser.New`: `nextToken` is called twice, each call notes an ILLEGAL token -/
+def initParser (toks : List Token) (idBase : Nat) : PS :=
+  let p00 : PS := { toks := toks, nextId := idBase }
+  (p00.noteIllegal p00.cur) |> fun q => if q.toks.length ≥ 2 then q.noteIllegal q.peek else q
+
+/-- the end of `ParseProgram` (the unexpected-EOF check) and `HasErrors` -/
+def finishParse (insideCode : Bool) (first : Token) (stmts : Option (List Stmt)) (p1 : PS) : ParseOut :=
+  let p2 :=
+    match stmts with
+    | some _ => if insideCode then p1.err p1.cur.errorLine "ErrUnexpectedEOF" [] else p1
+    | none => p1
+  if p2.oof then .oof
+  else
+    match p2.errors with
+    | e :: _ => .err e
+    | [] =>
+      .ok { tok := first, stmts := stmts.getD [], useName := p2.useName,
+            components := p2.components, inserts := p2.inserts, reserves := p2.reserves,
+            nextId := p2.nextId }
+
 /-- `lexer.New` + `parser.New` + `ParseProgram` + `HasErrors` -/
 def parseSource (src : Bytes) (idBase : Nat := 0) : ParseOut :=
   match tokenize src with
@@ -594,22 +618,8 @@ def parseSource (src : Bytes) (idBase : Nat := 0) : ParseOut :=
   | some lr =>
     if lr.panicked then .lexPanic
     else
-      -- `parser.New` calls `nextToken` twice
-      let p00 : PS := { toks := lr.toks, nextId := idBase }
-      let p0 := (p00.noteIllegal p00.cur) |> fun q => if q.toks.length ≥ 2 then q.noteIllegal q.peek else q
-      let first := p0.cur
-      let (stmts, p1) := parseProgramLoop (parseFuel lr.toks) [] p0
-      let p2 :=
-        match stmts with
-        | some _ => if lr.insideCode then p1.err p1.cur.errorLine "ErrUnexpectedEOF" [] else p1
-        | none => p1
-      if p2.oof then .oof
-      else
-        match p2.errors with
-        | e :: _ => .err e
-        | [] =>
-          .ok { tok := first, stmts := stmts.getD [], useName := p2.useName,
-                components := p2.components, inserts := p2.inserts, reserves := p2.reserves,
-                nextId := p2.nextId }
+      finishParse lr.insideCode (initParser lr.toks idBase).cur
+        (parseProgramLoop (parseFuel lr.toks) [] (initParser lr.toks idBase)).1
+        (parseProgramLoop (parseFuel lr.toks) [] (initParser lr.toks idBase)).2
 
 end Tw
